@@ -299,6 +299,12 @@ func genFlow(t *Tape, name string) *Plan {
 		k.ManualAckPct = 50
 		k.WDrop, k.WDisc = 0, 0
 		k.ConcPct = []int{0, 30}[t.Draw("c11.conc", 2)]
+		if t.Draw("c11.reconnect", 3) == 0 {
+			// the limits also hold for a session that is resumed or taken over with messages in flight, possibly
+			// with another Receive Maximum than before
+			k.WDrop, k.WDisc, k.WConnect = 2, 1, 5
+			k.CleanPct = 10
+		}
 	case "C12":
 		k.Slots = 3
 		k.RecvMaxChoices = []uint16{0, 1, 2}
@@ -307,6 +313,9 @@ func genFlow(t *Tape, name string) *Plan {
 		k.Topics = []string{"t", "u"}
 	case "C09":
 		k.ConcPct = []int{0, 0, 25}[t.Draw("c09.conc", 3)]
+		if t.Draw("c09.failwrite", 2) == 0 {
+			k.WFailWrite = 3 // the connection is lost while the broker writes a reply (e.g. PUBREL after PUBREC)
+		}
 	}
 	// subscriber first
 	g.Connect(0)
